@@ -87,7 +87,7 @@ def h_hooks(sx):
             sx.check((after, a) in L2[i + 1:], "C12.after-hook-paired", detail=lambda m, n=n, a=a: dict(det(m), unpaired=[n, a]))
     if len(w2.fault_fired) > 1:
         return obs
-    k, fname, farg = w2.fault_fired[0]
+    k, fname, farg = w2.fault_fired[0][:3]
     owner = exp[k - 1][2] if k - 1 < len(exp) else None
     sx.check(L2[:k] == L1[:k], "C12.identical-until-fault")
     if owner is None:
